@@ -182,6 +182,16 @@ def shape_two_roots(rng, name):
     return s
 
 
+def shape_nested_multi(rng, name):
+    """Multiple inheritance nested on a NON-principal branch: x SUBTYPE OF (p, m), m SUBTYPE OF (w, q), q SUBTYPE OF (q0) -
+    the attributes of q and q0 reach x only through the second supertype of its second supertype."""
+    s = Schema(name)
+    s.entities += [_e('p', k=1), _e('w', k=1), _e('q0', k=1), _e('q', ['q0'], k=2), _e('m', ['w', 'q'], k=1), _e('x', ['p', 'm'], k=1),
+                   _e('y', ['x'], k=1), _e('z', ['w', 'x'], k=1)]
+    s.tags.add('shape:nested multiple inheritance')
+    return s
+
+
 def shape_diamond_derived(rng, name):
     s = Schema(name)
     s.entities += [_e('a', k=3, abstract=True), _e('b', ['a'], k=1), _e('c', ['a'], k=1), _e('d', ['b', 'c'], k=1)]
@@ -257,6 +267,7 @@ def extras(seed, tier):
     out.append(shape_chain(R('chain'), 'xh%d' % seed, 6 if tier == 'quick' else 9))
     out.append(shape_diamond(R('dia'), 'xd%d' % seed))
     out.append(shape_two_roots(R('two'), 'xt%d' % seed))
+    out.append(shape_nested_multi(R('nmi'), 'xn%d' % seed))
     out.append(shape_diamond_derived(R('dd'), 'xe%d' % seed))
     out.append(type_zoo(R('zoo'), 'xz%d' % seed))
     if tier != 'quick':
